@@ -527,3 +527,85 @@ Proof.
     symmetry. by eapply refine_dup.
 Qed.
 End split_step2.
+
+(* ------------------------------------------------------------------ provider lists stay of length one or two *)
+Definition len12 (l : list name) : Prop := (exists n, l = [n]) \/ (exists n1 n2, l = [n1; n2]).
+Definition eff_ok2 (e : effect) : Prop :=
+  (forall p', e_after e = Continue p' -> len12 (pr_provs p')) /\ (forall s, In s (e_spawn e) -> len12 (sp_provs s)).
+
+Lemma droppable_fwds_ok2 self cl p ss cs p' : droppable_fwds self p cl = (ss, cs, p') -> forall s, In s ss -> len12 (sp_provs s).
+Proof. intros H s Hs. destruct (droppable_fwds_ok1 self cl p ss cs p' H s Hs) as [_ [n Hn]]. left. eauto. Qed.
+
+Lemma on_message_ok2 self p m e :
+  len12 (pr_provs p) -> (m_rule m = RFWD -> len12 (m_provs m)) -> on_message self p m = EOk e -> eff_ok2 e.
+Proof.
+  intros Hpv Hfw He. destruct p as [provs body next]. cbn in *.
+  unfold on_message in He. cbn in He.
+  destruct (m_rule m) eqn:Hrule; cbn in He.
+  8:{ specialize (Hfw eq_refl).
+      destruct body; cbn in He; simplify_eq; try (split; [intros p' [= <-]; cbn; done|intros s []]).
+      destruct droppable; cbn in He.
+      - destruct (droppable_fwds _ _ _) as [[ss cs] p'] eqn:Hdf. simplify_eq. split; [done|]. cbn. by eapply droppable_fwds_ok2.
+      - destruct (m_provs m) as [|q r] eqn:Hq; [done|]. simplify_eq. split; [intros p' [= <-]; cbn; done|intros s []]. }
+  all: destruct body; cbn in He; try discriminate.
+  all: repeat match type of He with
+       | context [if ?b then _ else _] => destruct b eqn:?; try discriminate
+       | context [match find_branch ?l ?bs with _ => _ end] => destruct (find_branch l bs) as [[? ?]|] eqn:?; try discriminate
+       | context [droppable_fwds ?a ?b ?c] => destruct (droppable_fwds a b c) as [[? ?] ?] eqn:?
+       end.
+  all: simplify_eq.
+  all: split; [intros p' Hp'; cbn in Hp'; first [discriminate | (simplify_eq; cbn; first [done | left; eauto])]
+              |intros s Hs; cbn in Hs; first [done | by eapply droppable_fwds_ok2]].
+Qed.
+
+Lemma internal_ok2 F self p e : len12 (pr_provs p) -> internal_effect Async F self p = EOk e -> eff_ok2 e.
+Proof.
+  intros Hpv He. destruct p as [provs body next]. cbn in *.
+  destruct body; cbn in He; try discriminate.
+  - simplify_eq. split; [intros p' [= <-]; done|]. intros s [<-|[]]. left. cbn. eauto.
+  - simplify_eq. split; [intros p' [= <-]; done|]. intros s [<-|[]]. right. cbn. eauto.
+  - destruct (call_body _ _ _) as [b|]; [|done]. simplify_eq. split; [intros p' [= <-]; done|intros s []].
+  - simplify_eq. split; [intros p' [= <-]; done|]. intros s [<-|[]]. left. cbn. eauto.
+  - simplify_eq. split; [intros p' [= <-]; done|intros s []].
+Qed.
+
+Lemma dup_ok2 self p e n1 n2 : pr_provs p = [n1; n2] -> dup_effect self p = EOk e -> eff_ok2 e.
+Proof.
+  intros Hpv He. destruct p as [provs body next]. cbn in Hpv. subst provs.
+  unfold dup_effect in He. cbn [pr_provs length Nat.eqb pr_body0] in He. rewrite fresh_matrix2 in He. simplify_eq.
+  split; [done|]. cbn. intros s [<-|[<-|Hs]]; [left; cbn; eauto|left; cbn; eauto|].
+  apply in_map_iff in Hs as ([fn row] & <- & Hin). cbn. apply in_combine_r in Hin. unfold rows2 in Hin.
+  apply elem_of_list_In, elem_of_lookup_zip_with in Hin as (j & a & b & -> & _). right. eauto.
+Qed.
+
+Theorem splitcfg_step D F c self c' :
+  Topo c -> SplitCfg c -> step Async D F c (Run self) = SStep c' -> SplitCfg c'.
+Proof.
+  intros Ht Hsc Hstep. apply step_run_async_inv in Hstep as (p & Hp & Hstep).
+  pose proof (sc_procs c Hsc self p Hp) as Hpv.
+  assert (forall c1 e, procs c1 = procs c -> eff_ok2 e ->
+            forall q pp, procs (apply_effect c1 self p e) !! q = Some pp -> len12 (pr_provs pp)) as Hprocs.
+  { intros c1 e Hc1 [Hk Hs] q pp Hq. apply apply_effect_content in Hq as [(p' & Ha & -> & _)|[(s & Hin & -> & _)|Hq]]; [by apply Hk|by apply Hs|].
+    rewrite Hc1 in Hq. by apply (sc_procs c Hsc q pp). }
+  assert (forall c1 e, (forall k st m, chans c1 !! k = Some st -> ch_buf st = Some m -> m_rule m = RFWD -> len12 (m_provs m)) ->
+            forall k st m, chans (apply_effect c1 self p e) !! k = Some st -> ch_buf st = Some m -> m_rule m = RFWD -> len12 (m_provs m)) as Hmsgs.
+  { intros c1 e Hc1 k st m Hk Hb Hr.
+    assert (buf (apply_effect c1 self p e) k = Some m) as Hbuf by (unfold buf, bufm; by rewrite Hk).
+    apply apply_effect_buf in Hbuf. unfold buf, bufm in Hbuf. destruct (chans c1 !! k) as [st1|] eqn:Hk1; [|done]. eauto. }
+  destruct (action_of Async D p) as [| |k m|k| |k pv|w] eqn:Hact; try done.
+  - destruct Hstep as (e & He & ->). destruct Hpv as [[n Hn]|(n1 & n2 & Hn)].
+    + exfalso. unfold dup_effect in He. rewrite Hn in He. done.
+    + pose proof (dup_ok2 self p e n1 n2 Hn He) as Hok. split; [by apply Hprocs|]. apply Hmsgs. apply (sc_msgs c Hsc).
+  - destruct Hstep as (e & He & ->). pose proof (internal_ok2 F self p e Hpv He) as Hok.
+    split; [by apply Hprocs|]. apply Hmsgs. apply (sc_msgs c Hsc).
+  - destruct Hstep as (st & Hk & Hb & ->). split; cbn.
+    + intros q pp [_ Hq]%lookup_delete_Some. by apply (sc_procs c Hsc q pp).
+    + intros k' st' m' [[<- <-]|[_ Hk']]%lookup_insert_Some Hb' Hr; [|by eapply (sc_msgs c Hsc)].
+      cbn in Hb'. simplify_eq. by rewrite (send_fwd_provs D p k m' Hact Hr).
+  - destruct Hstep as (st & Hk & Hst). destruct (ch_buf st) as [m|] eqn:Hb.
+    + destruct Hst as (e & He & ->).
+      pose proof (on_message_ok2 self p m e Hpv (sc_msgs c Hsc k st m Hk Hb) He) as Hok. split.
+      * by apply Hprocs.
+      * apply Hmsgs. intros k' st' m' Hk'. cbn in Hk'. apply lookup_insert_Some in Hk' as [[<- <-]|[_ Hk']]; [done|by apply (sc_msgs c Hsc k' st' m')].
+    + pose proof (topo_closed_unused Async D c eq_refl Ht self p k st Hp (or_introl Hact) Hk). congruence.
+Qed.
